@@ -935,6 +935,45 @@ namespace
 
     std::string in_before = ser_stack (in);
 
+    // voc=grow: the text is first compiled with a vocabulary that holds the
+    // core words only; then the DWARF words are added to that SAME vocabulary
+    // object and the text is compiled again -- this second query is the one
+    // that runs (what it yields must not depend on the first compilation).
+    struct voc_swap
+    {
+      zw_vocabulary *saved = nullptr, *grown = nullptr;
+      ~voc_swap ()
+      {
+	if (grown != nullptr)
+	  {
+	    g_voc = saved;
+	    zw_vocabulary_destroy (grown);
+	  }
+      }
+    } vs;
+    if (arg (a, "voc") == "grow")
+      {
+	zw_error *e = nullptr;
+	vs.saved = g_voc;
+	vs.grown = zw_vocabulary_init (&e);
+	if (vs.grown == nullptr
+	    || ! zw_vocabulary_add (vs.grown, zw_vocabulary_core (&e), &e))
+	  {
+	    zw_stack_destroy (in);
+	    return reply ("\"st\":\"harness\",\"msg\":\"vocabulary\"");
+	  }
+	g_voc = vs.grown;
+	std::string m0;
+	zw_query *q0 = parse_q (text, nosimp, &m0, len);
+	if (q0 != nullptr)
+	  zw_query_destroy (q0);
+	if (! zw_vocabulary_add (vs.grown, zw_vocabulary_dwarf (&e), &e))
+	  {
+	    zw_stack_destroy (in);
+	    return reply ("\"st\":\"harness\",\"msg\":\"vocabulary\"");
+	  }
+      }
+
     uint64_t f0 = fuel_used ();
     set_fuel (fuel);
     zw_query *q = parse_q (text, nosimp, &msg, len);
